@@ -226,6 +226,8 @@ class Interp:
                 ret = r.value
             if f.ret != EMPTY and ret is None:
                 raise Undefined('fell off the end of value function %s' % f.name)
+            if f.ret == BYTE and isinstance(ret, int) and not isinstance(ret, bool):
+                ret = self.narrow(ret, BYTE)
         finally:
             self.frames.pop()
         if self.checked and f.name.startswith('!') and contains_preempt(f.body):
@@ -269,6 +271,14 @@ class Interp:
             self.eval(s.e)
         elif isinstance(s, Decl):
             v = self.eval(s.init)
+            init0 = s.init
+            while isinstance(init0, Paren):
+                init0 = init0.e
+            if is_arr(s.ty) and isinstance(v, ArrayObj) and isinstance(init0, ArrLit):
+                # the literal takes the declared element type: int literals stored into a byte array keep the low byte
+                v = ArrayObj(s.ty[1], [x if (x is POISON or isinstance(x, bytes)) else self.narrow(x, s.ty[1]) for x in v.elems])
+            elif not is_arr(s.ty) and isinstance(v, int) and not isinstance(v, bool):
+                v = self.narrow(v, s.ty)
             self.bind(s.name, v)
         elif isinstance(s, ArrDecl):
             n = self.eval(s.length)
@@ -393,6 +403,8 @@ class Interp:
                 v = self.arith(op, old, self.num(self.eval(e)))
                 # x op= e is x = x op e: int result into a byte variable is rejected by the
                 # typechecker, so target is int here
+            if target.t == BYTE and isinstance(v, int) and not isinstance(v, bool):
+                v = self.narrow(v, BYTE)        # b op= e is b = b op e with the (byte-coercible) result narrowed back
             box = self.lookup(target.name)
             box.v = v
             return
@@ -557,6 +569,12 @@ class Interp:
             v = self.eval(a)
             if isinstance(v, bytes) and is_arr(p.ty):
                 v = ArrayObj(BYTE, list(v))
+            a0 = a
+            while isinstance(a0, Paren):
+                a0 = a0.e
+            if isinstance(a0, ArrLit) and isinstance(v, ArrayObj) and is_arr(p.ty):
+                # an array literal argument takes the parameter's element type
+                v = ArrayObj(p.ty[1], [x if (x is POISON or isinstance(x, bytes)) else self.narrow(x, p.ty[1]) for x in v.elems])
             vals.append(self.narrow(v, p.ty) if not isinstance(v, (bytes, ArrayObj)) else v)
         return self.call_func(f, vals)
 
